@@ -1,6 +1,5 @@
-(* Wire dispatch: op number * val -> val.  Pure glue from the universal value
-   type to the model/spec functions; evaluated both by vm_compute (cases.v) and
-   by the extracted OCaml driver. *)
+(* Wire glue for C18 (ops 18xx): universal value -> history model/spec functions.
+   Evaluated both by vm_compute (cases.v) and by the extracted OCaml driver. *)
 From Fzf Require Import Prelude Val HistorySpec HistoryModel.
 Open Scope Z_scope.
 
@@ -29,17 +28,8 @@ Fixpoint d_sessions (max : nat) (file : fs) (ss : list session) : list val :=
 Definition d_spec_stored (max : nat) (file : fs) (qs : list str) : val :=
   vstrs (stored_after max (entries (match file with None => [] | Some d => d end)) qs).
 
-Definition dispatch (op : Z) (a : val) : val :=
-  if op =? 1801 then VL (d_sessions (as_nat (arg a 0)) (as_fs (arg a 1)) (map as_session (as_list (arg a 2))))
-  else if op =? 1802 then d_spec_stored (as_nat (arg a 0)) (as_fs (arg a 1)) (as_strs (arg a 2))
-  else if op =? 1803 then vstrs (entries (as_str a))
-  else verr.
-
-(* used by generated cases.v: list of (op, arg, expected) -> indexes that disagree *)
-Fixpoint mismatches_from (i : nat) (cs : list (Z * val * val)) : list nat :=
-  match cs with
-  | [] => []
-  | (op, a, e) :: r =>
-      if val_eqb (dispatch op a) e then mismatches_from (S i) r else i :: mismatches_from (S i) r
-  end.
-Definition mismatches := mismatches_from 0.
+Definition dispatch_history (op : Z) (a : val) : option val :=
+  if op =? 1801 then Some (VL (d_sessions (as_nat (arg a 0)) (as_fs (arg a 1)) (map as_session (as_list (arg a 2)))))
+  else if op =? 1802 then Some (d_spec_stored (as_nat (arg a 0)) (as_fs (arg a 1)) (as_strs (arg a 2)))
+  else if op =? 1803 then Some (vstrs (entries (as_str a)))
+  else None.
